@@ -3,6 +3,8 @@
 //	in : style  \t name \t hex(go source)     out: name \t OK \t hex(converted) \t <shape>      | name \t ERR|PANIC \t msg
 //	in : shape  \t name \t hex(xgo/go source) out: name \t OK \t - \t <shape>                    (parse only, no conversion)
 //	in : xgo2go \t name \t hex(xgo source)    out: name \t OK \t hex(go source emitted by cl+gogen) | name \t ERR|PANIC \t msg
+//	in : gocheck \t name \t hex(go source)    out: name \t OK | name \t ERR \t first go/parser or go/types error
+//	     (generator validity: every generated ORIGINAL must be well-typed Go before it is used)
 //
 // <shape> is the converted file parsed again with the XGo parser and projected to MiniGo (the
 // observable compared with the Coq model coq/Model/C25.v, same prefix-token syntax as
@@ -14,6 +16,11 @@ import (
 	"encoding/hex"
 	"flag"
 	"fmt"
+	goast "go/ast"
+	"go/importer"
+	goparser "go/parser"
+	gotoken "go/token"
+	"go/types"
 	"os"
 	"strconv"
 	"strings"
@@ -365,6 +372,35 @@ func doBuild(name, src string) (out string) {
 	return fmt.Sprintf("%s\tOK\t%s", name, hex.EncodeToString(data))
 }
 
+var goFset = gotoken.NewFileSet()
+var goImp types.Importer
+
+func doGoCheck(name, src string) (out string) {
+	defer func() {
+		if r := recover(); r != nil {
+			out = fmt.Sprintf("%s\tERR\tpanic %s", name, clean(fmt.Sprint(r)))
+		}
+	}()
+	f, err := goparser.ParseFile(goFset, name+".go", src, 0)
+	if err != nil {
+		return fmt.Sprintf("%s\tERR\t%s", name, clean(err.Error()))
+	}
+	if goImp == nil {
+		goImp = importer.ForCompiler(goFset, "source", nil)
+	}
+	var first string
+	conf := &types.Config{Importer: goImp, Error: func(e error) {
+		if first == "" {
+			first = e.Error()
+		}
+	}}
+	conf.Check("main", goFset, []*goast.File{f}, nil)
+	if first != "" {
+		return fmt.Sprintf("%s\tERR\t%s", name, clean(first))
+	}
+	return name + "\tOK"
+}
+
 func main() {
 	flag.Parse()
 	os.Chdir(*repo)
@@ -383,6 +419,8 @@ func main() {
 		switch f[0] {
 		case "style":
 			fmt.Fprintln(w, doStyle(f[1], string(b), true))
+		case "gocheck":
+			fmt.Fprintln(w, doGoCheck(f[1], string(b)))
 		case "shape":
 			fmt.Fprintln(w, doStyle(f[1], string(b), false))
 		case "xgo2go":
